@@ -579,7 +579,8 @@ META = {
             "by conditional constant propagation for each of the five possible values and compared with the class "
             "hierarchy; the refinements are shown to be dominated by their documented guards and to carry the region; the "
             "basis/outlier views are a set partition by construction; the input is never mutated; nothing nondeterministic "
-            "is reachable. Whether the region search recognises a given material is not decided (C18, not applicable).",
+            "is reachable. Whether the region search recognises a given material is not decided (C18, not applicable)."
+            " Also: classify never modifies its configuration in place (flow-sensitive alias tracking of self.<config>), the precomputed matrix handed to get_dimensionality is the radii-corrected field, coverage is compared with >=, outliers are exactly ALL minus BASIS, and every exception handler on the reachable paths is a confirmed one.",
     "note": "trusted: CPython ast; repository model; effect-analysis API tables; get_dimensionality's range {None,0,1,2,3}.",
     "technique": "conditional constant propagation over the dispatch + dominance/def-use guards + effect analysis",
 }
